@@ -61,6 +61,14 @@
                                                    the scope exit) compiled, run and compared with eval_program by
                                                    computation; C06_ex_rep_*_hyps: the hypotheses on its run.
 
+   The refinement THROUGH THE COMPILER, fragment FC (closures over the locals of main, two sibling closures sharing a
+   captured variable, writes seen by main; end of this file; C06SimFcDefs.v, C06SimFcRef.v .. C06SimFcRef4.v,
+   C06SimFcScope.v): the reference half is PROVED for every program of the fragment - C06_fc_reference_meaning:
+   eval_program computes the direct meaning obs_fc, in which all closures and main work on ONE store -, with
+   C06_fc_well_scoped; the compiler half (the exact code / labels emitted, code_all_fc / labels_fc) and the VM half are
+   DEFINED and CHECKED BY COMPUTATION on the instances C06_fc_instance / C06_fc_instance_ok only.  Missing for the
+   closed theorem C06_closure_sim_fc: the proofs of these two halves for all programs of FC.
+
    Still only STATED (not proved): the whole-program refinement (the induction that chains the steps above along
    compiled code, C06_closure_sim_f1),
 
@@ -1032,3 +1040,148 @@ Proof.
   split; [apply chain_of_sound with (fuel := 3); vm_compute; reflexivity|].
   split; [rep_wit|]. split; [vm_compute; lia | vm_compute; lia].
 Qed.
+
+(* ------------------------------------------------------------------------------------------ *)
+(* THE REFINEMENT THROUGH THE COMPILER, fragment FC (closures over the locals of main)         *)
+(* ------------------------------------------------------------------------------------------ *)
+(* Fragment FC (C06SimFcDefs.in_fc): one function `main`; cards of main:  SetGlobalVar g e | SetVar x e (declares the
+   data local x or assigns it) | SetVar c (Closure [] body) (declares the local c holding a closure; c a new name) |
+   SetGlobalVar r (DynamicCall (ReadVar c) []) (calls the closure c; r := nil).  A closure body is a list of
+   SetGlobalVar g e | SetVar x e  with x a data local of main declared BEFORE the closure: a captured variable.
+   Expressions: C01's F1 (ScalarInt, ScalarNil, ReadVar, Not, Add Sub Mul Less ...) that never read a closure local; in a
+   body a ReadVar of a data local of main declared before the closure is captured, every other name is a global.
+   The direct meaning C06SimFcDefs.obs_fc keeps ONE store of main's data locals; a closure body runs on that store
+   (restricted to the names visible where the closure was created) and its writes go to that store: capture by
+   reference, sharing between sibling closures and visibility of the writes in main are built into the meaning.
+
+   (Left out of FC: the call  DynamicCall (ReadVar c) []  standing directly as a card of main.  The compiler emits
+   ReadLocalVar c; CallFunction and no Pop there, so the returned nil stays on the value stack above the locals; a later
+   declaration  SetVar z e  - SetLocalVar (number of locals) - overwrites the lowest such leftover, and the Pops at the
+   end of main remove leftovers instead of locals (harmless: Exit follows, CloseUpvalue k names its slot).  On an instance
+   with such calls between declarations and captures compile + Vm.run still agree with eval_program; the stack shape
+   "locals ++ leftovers" is what a proof would have to carry.)
+
+   PROVED (reference half, C06SimFcRef.v .. C06SimFcRef4.v): C06_fc_reference_meaning - for every program of FC,
+     eval_program fuel M host = PObs o  implies  (ob_kind o, ob_globals o) = obs_fc (main_cards M):
+   RefSem's cells / scopes / closure records compute exactly that meaning (the invariant C06SimFcRef2.inv: main's scope
+   maps each data local to a cell holding its value, injectively; each closure local's cell holds VClosure k, record k
+   keeps the body and a scope that agrees with main's scope on the names visible at creation).
+   VALIDATED BY COMPUTATION ONLY (the Examples below): the compiler half - compile M emits
+   encode (C06SimFcDefs.code_all_fc ..) (Goto over the body, body with ReadUpvalue / SetUpvalue, ScalarNil Return,
+   Closure label 0, CopyLast RegisterUpvalue slot 1 per captured slot in order of first use, SetLocalVar; at the end of
+   main CloseUpvalue slot for a captured local and Pop for the others) and the closure labels C06SimFcDefs.labels_fc -
+   and the VM half - Vm.run of the compiled code gives the kind and the globals of obs_fc.
+   MISSING for the closed theorem C06_closure_sim_fc (compile = COk B and eval_program = PObs o imply Vm.run agrees):
+   the proofs of these two halves for all programs of FC (the compiler half in the style of C01SimComp5/9 with
+   compile_begin / resolve_upvalue / emit_upvalues / pop_locals with captured locals; the VM half in the style of
+   C01SimF5/F9b using C06_rep_register_upvalue, C06_rep_read_upvalue / write_upvalue, C06_vm_closure_body). *)
+From Cao Require C06SimFcDefs C06SimFcRef4 C01SimDefs Compiler CompilerProofs C15Link.
+
+Theorem C06_fc_reference_meaning :
+  forall (fuel : nat) (M : module) (host : list str) (o : obs),
+    C06SimFcDefs.in_fc M = true -> eval_program fuel M host = PObs o ->
+    (ob_kind o, ob_globals o) = C06SimFcDefs.obs_fc (C01SimDefs.main_cards M).
+Proof. exact C06SimFcRef4.eval_program_fc. Qed.
+Print Assumptions C06_fc_reference_meaning.
+
+(* x, y data locals; inc := fn(){ x := x + y } and get := fn(){ out := x; o2 := out - z } are siblings that share x
+   (get also captures z, declared between them; inc cannot see z); main calls inc, get, writes x itself, calls get
+   again and reads x back: out = 22 - the write of inc (12) and main's write (+10) seen by get -, fin = 22;
+   then an unset global is read: VarNotFound, the card after it does not run. *)
+Definition fc_call0 (c : string) : card := CDynamicCall (CReadVar (s c)) [].
+Definition fc_example : module :=
+  prog [("main", fn []
+    [CSetVar (s "x") (CScalarInt 5);
+     CSetVar (s "y") (CScalarInt 7);
+     CSetVar (s "inc") (CClosure [] [CSetVar (s "x") (CBin BAdd (CReadVar (s "x")) (CReadVar (s "y")))]);
+     CSetVar (s "z") (CScalarInt 100);
+     CSetVar (s "get") (CClosure [] [CSetGlobalVar (s "out") (CReadVar (s "x"));
+                                     CSetGlobalVar (s "o2") (CBin BSub (CReadVar (s "out")) (CReadVar (s "z")))]);
+     CSetGlobalVar (s "r0") (fc_call0 "inc");
+     CSetGlobalVar (s "r") (fc_call0 "get");
+     CSetVar (s "x") (CBin BAdd (CReadVar (s "x")) (CScalarInt 10));
+     CSetGlobalVar (s "r") (fc_call0 "get");
+     CSetGlobalVar (s "fin") (CReadVar (s "x"));
+     CSetGlobalVar (s "bad") (CReadVar (s "nope"));
+     CSetGlobalVar (s "never") (CScalarInt 1)])].
+(* the same without the failing read: the run reaches the end of main (CloseUpvalue / Pop, Exit) *)
+Definition fc_example_ok : module :=
+  prog [("main", fn []
+    [CSetVar (s "x") (CScalarInt 1);
+     CSetVar (s "inc") (CClosure [] [CSetVar (s "x") (CBin BAdd (CReadVar (s "x")) (CScalarInt 1))]);
+     CSetVar (s "get") (CClosure [] [CSetGlobalVar (s "out") (CReadVar (s "x"))]);
+     CSetGlobalVar (s "r") (fc_call0 "inc");
+     CSetGlobalVar (s "r") (fc_call0 "inc");
+     CSetGlobalVar (s "r") (fc_call0 "get");
+     CSetGlobalVar (s "seen") (CReadVar (s "out"));
+     CSetVar (s "x") (CBin BMul (CReadVar (s "x")) (CScalarInt 10));
+     CSetGlobalVar (s "r") (fc_call0 "get");
+     CSetGlobalVar (s "mine") (CReadVar (s "x"))])].
+
+Definition fc_mainh (M : module) : N :=
+  match Compiler.into_ir_stream M 64 with inr (f :: _) => Compiler.fi_handle f | _ => 0%N end.
+Definition fc_agrees (M : module) (fuel : nat) (names : list string) (expect : okind * list (str * tree)) : Prop :=
+  match Compiler.compile M CompilerProofs.default_options, eval_program fuel M [] with
+  | Compiler.COk B, PObs o =>
+      let cards := C01SimDefs.main_cards M in
+      C06SimFcDefs.in_fc M = true /\
+      (ob_kind o, ob_globals o) = expect /\
+      C06SimFcDefs.obs_fc cards = expect /\
+      (* the compiler half, on this program: the code and the closure labels *)
+      (let code := Bytecode.encode (C06SimFcDefs.code_all_fc (Compiler.p_ids B) (fc_mainh M) cards) in
+       firstn (List.length code) (Compiler.p_bytecode B) = code) /\
+      Forall (fun kv => Compiler.nm_find (fst kv) (Compiler.p_labels B) = Some (snd kv))
+             (C06SimFcDefs.labels_fc (Compiler.p_ids B) (fc_mainh M) [] 0 0 cards) /\
+      (* the VM half, on this program *)
+      let r := Vm.run C06SimWitness.wnofloat Vm.Debug fuel (C15Link.to_vm B) Vm.fresh_state in
+      C01SimDefs.vm_kind (fst r) = Some (ob_kind o) /\
+      map (fun n => option_map C01SimDefs.vm_tree (Vm.read_var_by_name (C15Link.to_vm B) (snd r) (s n))) names
+      = map (fun n => RefSem.assoc (s n) (ob_globals o)) names
+  | _, _ => False
+  end.
+
+Example C06_fc_instance :
+  fc_agrees fc_example 500 ["out"; "o2"; "r0"; "r"; "fin"; "bad"; "never"; "x"; "inc"]
+    (KErr RefSem.EVarNotFound, [(s "r0", TrNil); (s "out", TrInt 22); (s "o2", TrInt (-78)); (s "r", TrNil); (s "fin", TrInt 22)]).
+Proof. vm_compute. repeat split; repeat constructor. Qed.
+Example C06_fc_instance_ok :
+  fc_agrees fc_example_ok 500 ["out"; "seen"; "r"; "mine"; "x"; "inc"; "get"]
+    (KOk, [(s "r", TrNil); (s "out", TrInt 30); (s "seen", TrInt 3); (s "mine", TrInt 30)]).
+Proof. vm_compute. repeat split; repeat constructor. Qed.
+
+(* the programs of FC lie in the class the properties quantify over *)
+From Cao Require C06SimFcScope.
+Theorem C06_fc_well_scoped :
+  forall M : module, C06SimFcDefs.in_fc M = true -> well_scoped M = true.
+Proof. exact C06SimFcScope.in_fc_well_scoped. Qed.
+Print Assumptions C06_fc_well_scoped.
+Example C06_fc_instance_well_scoped :
+  C06SimFcDefs.in_fc fc_example = true /\ well_scoped fc_example = true /\
+  C06SimFcDefs.in_fc fc_example_ok = true /\ well_scoped fc_example_ok = true.
+Proof. vm_compute. repeat split; reflexivity. Qed.
+
+(* corners of the fragment: a closure f created BEFORE main declares the local w reads w as a GLOBAL (the local w is
+   invisible to it, in RefSem, in the meaning - `restrict` - and in the code - ReadGlobalVar); a closure that captures
+   two locals in the order b, a (upvalue 0 = slot 1, upvalue 1 = slot 0) and only writes a; a local that no closure
+   captures (Pop, not CloseUpvalue, at the end of main); a captured variable assigned by main between two calls *)
+Definition fc_example_edges : module :=
+  prog [("main", fn []
+    [CSetVar (s "a") (CScalarInt 1);
+     CSetVar (s "b") (CScalarInt 2);
+     CSetGlobalVar (s "w") (CScalarInt 40);
+     CSetVar (s "f") (CClosure [] [CSetGlobalVar (s "gw") (CBin BAdd (CReadVar (s "w")) (CReadVar (s "b")));
+                                   CSetVar (s "a") (CBin BSub (CReadVar (s "b")) (CScalarInt 10))]);
+     CSetVar (s "w") (CScalarInt 7);
+     CSetVar (s "u") (CBin BAdd (CReadVar (s "w")) (CReadVar (s "a")));
+     CSetVar (s "h") (CClosure [] [CSetGlobalVar (s "hw") (CBin BMul (CReadVar (s "w")) (CReadVar (s "a")))]);
+     CSetGlobalVar (s "r") (fc_call0 "f");
+     CSetGlobalVar (s "r") (fc_call0 "h");
+     CSetVar (s "b") (CScalarInt 100);
+     CSetGlobalVar (s "r") (fc_call0 "f");
+     CSetGlobalVar (s "r") (fc_call0 "h");
+     CSetGlobalVar (s "a_end") (CReadVar (s "a"));
+     CSetGlobalVar (s "u_end") (CReadVar (s "u"))])].
+Example C06_fc_instance_edges :
+  fc_agrees fc_example_edges 600 ["w"; "gw"; "hw"; "r"; "a_end"; "u_end"; "a"; "f"]
+    (KOk, [(s "w", TrInt 40); (s "gw", TrInt 140); (s "r", TrNil); (s "hw", TrInt 630); (s "a_end", TrInt 90); (s "u_end", TrInt 8)]).
+Proof. vm_compute. repeat split; repeat constructor. Qed.
